@@ -776,7 +776,12 @@ func (in *inst) rewriteMapRange(r *ast.RangeStmt) ast.Stmt {
 	okv := in.tmp("ok")
 	if r.Value != nil && !isBlank(r.Value) {
 		if r.Tok == token.DEFINE {
-			body = append(body, &ast.AssignStmt{Lhs: []ast.Expr{r.Value, okv}, Tok: token.DEFINE, Rhs: []ast.Expr{&ast.IndexExpr{X: m, Index: loopKey}}})
+			// go.mod of the repository says go 1.21: ONE value variable for all iterations (a closure or goroutine
+			// started in the body sees later iterations' values) - declare it once, in front of the loop
+			pre = append(pre, &ast.AssignStmt{Lhs: []ast.Expr{r.Value}, Tok: token.DEFINE, Rhs: []ast.Expr{in.call("ZeroValOf", m)}})
+			pre = append(pre, &ast.AssignStmt{Lhs: []ast.Expr{ast.NewIdent("_")}, Tok: token.ASSIGN, Rhs: []ast.Expr{r.Value}})
+			pre = append(pre, &ast.DeclStmt{Decl: &ast.GenDecl{Tok: token.VAR, Specs: []ast.Spec{&ast.ValueSpec{Names: []*ast.Ident{okv}, Type: ast.NewIdent("bool")}}}})
+			body = append(body, &ast.AssignStmt{Lhs: []ast.Expr{r.Value, okv}, Tok: token.ASSIGN, Rhs: []ast.Expr{&ast.IndexExpr{X: m, Index: loopKey}}})
 		} else {
 			body = append(body, &ast.DeclStmt{Decl: &ast.GenDecl{Tok: token.VAR, Specs: []ast.Spec{&ast.ValueSpec{Names: []*ast.Ident{okv}, Type: ast.NewIdent("bool")}}}})
 			body = append(body, &ast.AssignStmt{Lhs: []ast.Expr{r.Value, okv}, Tok: token.ASSIGN, Rhs: []ast.Expr{&ast.IndexExpr{X: m, Index: loopKey}}})
